@@ -6,7 +6,7 @@ import pandas as pd
 from .. import scenes, obs, oracles
 
 ID, NUM, LEVEL = 'C15', 15, 'exploration'
-RULE = ('Evaluation = one object screened by the real utils.check_data_consistency and by CeiloChunk(...), compared '
+RULE = ('(Dtype variants include non-native byte order; frames carrying the allows_duplicate_labels=False flag and attrs.) ' 'Evaluation = one object screened by the real utils.check_data_consistency and by CeiloChunk(...), compared '
         'with an independent reference implementation of the six documented refusal conditions evaluated on the '
         'exactly coerced values (not a DataFrame, empty, missing column, duplicated rows, a (ceilo, dt) with both a '
         'type-0 and a non-0 hit, or both a VV and a non-VV hit): raise <=> reference refuses, and the exception is '
